@@ -154,9 +154,13 @@ def r06_5(ctx):
 
 
 def r06_s(ctx):
-    """the whitespace skipper never jumps over an unseen byte (shared with C01): pretty output parses back"""
+    """the whitespace skipper never jumps over an unseen byte (shared with C01): pretty output parses back; number literals are not
+    reduced modulo 2^64 and the rounding window of the float fast path is the algorithm's (shared with C07): digits survive the parse"""
     from . import c01
     ctx.include(c01.r01_12, 'R06.S')
+    from . import c07
+    ctx.include(c07.r07_10, 'R06.S')
+    ctx.include(c07.r07_9, 'R06.S')
 
 
 RULES = [("R06.1", r06_1), ("R06.2", r06_2), ("R06.3", r06_3), ("R06.4", r06_4), ("R06.5", r06_5), ("R06.S", r06_s)]
